@@ -130,7 +130,11 @@ func (in *interp) block(list []*Stmt, parent *env, f *Func) ([]Value, bool) {
 			if s.LoopIdx != "" {
 				idx = int(e.lookup(s.LoopIdx).Bits.Int64())
 			}
-			arr.Elems[idx] = in.eval(s.E, e).Copy()
+			if s.Idx2 > 0 {
+				arr.Elems[idx].Elems[s.Idx2-1] = in.eval(s.E, e).Copy()
+			} else {
+				arr.Elems[idx] = in.eval(s.E, e).Copy()
+			}
 		case SSetField:
 			st := e.lookup(s.Name)
 			arrT := in.structOf(s.Name, e, f)
